@@ -28,7 +28,9 @@ pub struct Case { pub req: Req, pub plain: Plain, pub chunks: Vec<usize>, pub po
     /// name of the input file: 0 = in.bin, otherwise a word that is also a command or alias (enc, dec, pass, gen, key, encrypt, password)
     #[serde(default)] pub in_name: u8,
     /// one more wiring: the password is typed at a (pseudo-)terminal instead of read from KESTREL_PASSWORD
-    #[serde(default)] pub typed: bool }
+    #[serde(default)] pub typed: bool,
+    /// further wirings whose -o target is not a regular file: 1 = /dev/stdout with stdout a pipe, 2 = a named pipe somebody reads, 3 = /dev/null
+    #[serde(default)] pub out_kinds: Vec<u8> }
 
 pub fn wiring_from(i: usize) -> Wiring { Wiring { stdin_in: i & 1 != 0, stdout_out: i & 2 != 0, env_keyring: i & 4 != 0, short_opts: i & 8 != 0, alias: i & 16 != 0, opts_first: i & 32 != 0 } }
 const PW: &str = "c12 file password";
@@ -96,10 +98,11 @@ pub fn check(c: &Case) -> CheckResult {
     let is_dec = matches!(c.req, Req::KeyDec(_) | Req::PassDec(_) | Req::PassDecWrongPw);
     let is_key = matches!(c.req, Req::KeyEnc | Req::KeyDec(_));
     let mut outcomes: Vec<(Wiring, Outcome, String)> = Vec::new();
-    let mut wirings: Vec<(Wiring, bool)> = c.wirings.iter().map(|w| (*w, false)).collect();
-    if c.typed && c.sink == Sink::Healthy && cli::pty_available() && !matches!(c.req, Req::PassDecWrongPw) { wirings.push((wiring_from(0), true)); }
-    for (w, typed) in &wirings {
-        let typed = *typed;
+    let mut wirings: Vec<(Wiring, bool, u8)> = c.wirings.iter().map(|w| (*w, false, 0u8)).collect();
+    if c.typed && c.sink == Sink::Healthy && cli::pty_available() && !matches!(c.req, Req::PassDecWrongPw) { wirings.push((wiring_from(0), true, 0)); }
+    if c.sink == Sink::Healthy { for (i, k) in c.out_kinds.iter().enumerate() { if (1..=3).contains(k) { let mut w = wiring_from((c.sel as usize >> (6 * i)) & 63); w.stdout_out = false; wirings.push((w, false, *k)); } } }
+    for (w, typed, okind) in &wirings {
+        let (typed, okind) = (*typed, *okind);
         let sb = Sandbox::new();
         let in_name = ["in.bin", "enc", "dec", "pass", "gen", "key", "encrypt", "password"][c.in_name as usize % 8];
         sb.write(in_name, &input); sb.write("keys.txt", kr.as_bytes());
@@ -118,7 +121,7 @@ pub fn check(c: &Case) -> CheckResult {
         if c.req == Req::KeyEnc { opts.push(o("from", "f")); opts.push("alice".into()); }
         let sink_special = c.sink != Sink::Healthy;
         let to_stdout = w.stdout_out || sink_special;
-        if !to_stdout { opts.push(o("output", "o")); opts.push("out.bin".into()); }
+        if !to_stdout { opts.push(o("output", "o")); opts.push(["out.bin", "/dev/stdout", "out.fifo", "/dev/null"][okind as usize].into()); }
         if is_key && !w.env_keyring { opts.push(o("keyring", "k")); opts.push("keys.txt".into()); }
         if !typed { opts.push("--env-pass".into()); }
         let file_arg: Vec<String> = if w.stdin_in { vec![] } else { vec![in_name.into()] };
@@ -131,16 +134,18 @@ pub fn check(c: &Case) -> CheckResult {
         // -k names the keyring; an unrelated KESTREL_KEYRING in the environment must not matter (USAGE: the variable is the fallback)
         if is_key && !w.env_keyring && c.env_decoy > 0 { cmd.env.push(("KESTREL_KEYRING".into(), if c.env_decoy == 1 { "no-such-keyring.txt".into() } else { sb.path("decoy.txt").to_string_lossy().into_owned() })); }
         if w.stdin_in { cmd.stdin = In::File(sb.path(in_name)); }
-        cmd.stdout = match c.sink { Sink::DevFull => Out::DevFull, Sink::ClosedPipe => Out::ClosedPipe, Sink::Healthy => Out::Capture };
+        cmd.stdout = match c.sink { Sink::DevFull => Out::DevFull, Sink::ClosedPipe => Out::ClosedPipe, Sink::Healthy => if okind == 1 { Out::PipeCapture } else { Out::Capture } };
+        if okind == 2 { cmd.out_fifos.push("out.fifo".into()); }
         let mut r = cmd.run();
         if typed { // on a terminal the tool's messages arrive on the terminal: treat them as its stderr
             r.stderr = r.stdout.iter().filter(|&&b| b != b'\r').cloned().collect(); r.stdout.clear(); }
         ensure!(r.signal.is_none() && !r.timed_out && matches!(r.code, Some(0) | Some(1)), "[{:?}{}] abnormal end: {}", w, if typed { " typed" } else { "" }, r.describe());
         if r.code == Some(1) { ensure!(r.stderr_s().lines().any(|l| l.trim_start().starts_with("Error:")), "[{:?}] exit 1 without an Error: line: {:?}", w, r.stderr_s()); }
-        let mut data = if sink_special { None } else if to_stdout { Some(r.stdout.clone()) } else { sb.read("out.bin") };
+        let mut data = if sink_special { None } else if to_stdout || okind == 1 { Some(r.stdout.clone()) } else if okind == 2 { r.fifo_out.first().cloned() } else if okind == 3 { None } else { sb.read("out.bin") };
         // an untouched pre-existing file means the run delivered nothing
         if !to_stdout && prior.is_some() && data == prior { data = None; }
-        if !to_stdout { ensure!(r.stdout.is_empty(), "[{:?}] data on stdout although -o was given", w); }
+        if !to_stdout && okind != 1 { ensure!(r.stdout.is_empty(), "[{:?}] data on stdout although -o was given", w); }
+        let w = &(*w, ["", "-o /dev/stdout (a pipe)", "-o <named pipe>", "-o /dev/null"][okind as usize]);
         let err = r.stderr_s();
         let sender_line = err.lines().map(|l| l.trim()).find(|l| l.starts_with("Success. File from:") || l.starts_with("Unknown key:")).map(|s| s.to_string());
         // (1) exit status = what the request is by construction
@@ -149,7 +154,9 @@ pub fn check(c: &Case) -> CheckResult {
         if sink_special && is_dec && expect_ok && !sink_fails { /* nothing to write: either outcome of the device is fine */ }
         ensure!((r.code == Some(0)) == should_ok, "[{:?}] {:?} ({:?} sink) exited {:?} but the operation {} (stderr: {})", w, c.req, c.sink, r.code, if should_ok { "completes by construction" } else { "cannot complete" }, err.replace('\n', " | "));
         if r.code == Some(0) && !sink_special {
-            // (2) content
+            // (2) content (nothing to look at when the data went to /dev/null)
+            if okind == 3 { data = if is_dec { expect_data.clone() } else { None }; }
+            if okind != 3 {
             if is_dec { ensure!(data.as_deref() == expect_data.as_deref(), "[{:?}] decryption exited 0 but delivered {:?} bytes instead of the {} plaintext bytes", w, data.as_ref().map(|d| d.len()), expect_data.as_ref().map(|d| d.len()).unwrap_or(0)); }
             else {
                 let ct = data.clone().ok_or("encryption exited 0 but produced no output")?;
@@ -160,6 +167,7 @@ pub fn check(c: &Case) -> CheckResult {
                     let (res, sh) = kx::pass_decrypt(&ct, &RSched::full(), &WSched::all(), None, PW.as_bytes());
                     ensure!(res.is_ok() && *sh.sink.borrow() == p, "[{:?}] file produced by `password encrypt` (exit 0) does not decrypt to the input", w);
                 }
+            }
             }
             // (3) sender line
             if let Req::KeyDec(_) = c.req {
@@ -172,7 +180,8 @@ pub fn check(c: &Case) -> CheckResult {
         }
         // an output file that was never created and an empty stdout are the same observable result: nothing was delivered
         let comparable = Outcome { code: r.code, data: if is_dec && !sink_special { Some(data.unwrap_or_default()) } else { None }, sender_line };
-        outcomes.push((*w, comparable, err));
+        let mut comparable = comparable; if okind == 3 { if let Some(first) = outcomes.first() { comparable.data = first.1.data.clone(); } }
+        outcomes.push((w.0, comparable, err));
     }
     // (4) every wiring of the same request agrees
     for (w, o, err) in &outcomes[1..] { if *o != outcomes[0].1 { return Err(format!("wiring {:?} and wiring {:?} of the same request disagree: {:?}/{:?} bytes/{:?} vs {:?}/{:?} bytes/{:?} (stderr: {})", outcomes[0].0, w, outcomes[0].1.code, outcomes[0].1.data.as_ref().map(|d| d.len()), outcomes[0].1.sender_line, o.code, o.data.as_ref().map(|d| d.len()), o.sender_line, err.replace('\n', " | "))); } }
@@ -195,24 +204,25 @@ pub fn strat() -> impl Strategy<Value = Case> {
     let plain = prop_oneof![1 => any::<u64>().prop_map(|seed| Plain { len: 0, seed }), 6 => gen::small_plain(300), 1 => gen::plain_strategy(200_000)];
     (req, plain, proptest::collection::vec(1usize..60, 0..5), prop_oneof![Just(SenderPos::First), Just(SenderPos::Last), Just(SenderPos::Absent), Just(SenderPos::OnlyWithRecipient), Just(SenderPos::AbsentCaseVariantPresent)], proptest::collection::vec((0usize..64).prop_map(wiring_from), 2..4), prop_oneof![8 => Just(Sink::Healthy), 1 => Just(Sink::DevFull), 1 => Just(Sink::ClosedPipe)], any::<u64>())
         .prop_flat_map(|(req, plain, chunks, pos, wirings, sink, sel)| (Just((req, plain, chunks, pos, wirings, sink, sel)), proptest::option::weighted(0.35, any::<u16>()), prop_oneof![3 => Just(0u8), 1 => Just(1u8), 1 => Just(2u8)]))
-        .prop_map(|((req, plain, chunks, pos, mut wirings, sink, sel), prior_out, env_decoy)| { wirings.insert(0, wiring_from(0)); Case { req, plain, chunks, pos, wirings, sink, sel, prior_out: prior_out.map(|x| x % 3000), env_decoy, in_name: if sel % 4 == 0 { (sel >> 8) as u8 } else { 0 }, typed: sel % 3 == 0 } })
+        .prop_map(|((req, plain, chunks, pos, mut wirings, sink, sel), prior_out, env_decoy)| { wirings.insert(0, wiring_from(0)); Case { req, plain, chunks, pos, wirings, sink, sel, prior_out: prior_out.map(|x| x % 3000), env_decoy, in_name: if sel % 4 == 0 { (sel >> 8) as u8 } else { 0 }, typed: sel % 3 == 0, out_kinds: if sel % 5 < 2 { vec![1 + ((sel >> 12) % 3) as u8] } else { vec![] } } })
 }
 
 pub fn run(ctx: &Ctx) {
-    set_rule("C12", "logical request (encrypt, decrypt, password encrypt, password decrypt; for decryption an authentic file or one damaged in the first chunk / a later chunk / truncated / extended / for another recipient / of the other mode / garbage; wrong password) x keyring composition (sender entry first / last / absent among 2..4 entries) x wiring {file argument | stdin} x {-o | stdout} x {-k | KESTREL_KEYRING} x {long | short options} x {command | alias} x option order, plus /dev/full and closed-pipe sinks, a longer file already present at the -o path, and an unrelated KESTREL_KEYRING set while -k is given. Every case runs the canonical wiring and 2-3 generated ones; SSE: all 64 wirings for one request of each kind. Oracles: exit 0 <=> the request completes by construction, exit 1 has an Error: line; on success the delivered bytes are the plaintext (for encryption: the in-process decryptor returns the plaintext and the --from key); the sender line names the matching entry or reports the key as unknown with its encoding; all wirings of a request agree. Non-trivial = failing request, or stdin/stdout/env wiring, or sender not first; distinct by hash of the case");
+    set_rule("C12", "logical request (encrypt, decrypt, password encrypt, password decrypt; for decryption an authentic file or one damaged in the first chunk / a later chunk / truncated / extended / for another recipient / of the other mode / garbage; wrong password) x keyring composition (sender entry first / last / absent among 2..4 entries) x wiring {file argument | stdin} x {-o | stdout} x {-k | KESTREL_KEYRING} x {long | short options} x {command | alias} x option order, plus -o targets that are not regular files (/dev/stdout bound to a pipe, a named pipe with a reader, /dev/null), /dev/full and closed-pipe sinks, a longer file already present at the -o path, and an unrelated KESTREL_KEYRING set while -k is given. Every case runs the canonical wiring and 2-3 generated ones; SSE: all 64 wirings for one request of each kind. Oracles: exit 0 <=> the request completes by construction, exit 1 has an Error: line; on success the delivered bytes are the plaintext (for encryption: the in-process decryptor returns the plaintext and the --from key); the sender line names the matching entry or reports the key as unknown with its encoding; all wirings of a request agree. Non-trivial = failing request, or stdin/stdout/env wiring, or sender not first; distinct by hash of the case");
     ctx.assume("Linux, no terminal; passwords via --env-pass");
     ctx.shrink_iters.store(30, std::sync::atomic::Ordering::Relaxed);
     let _ = ids();
     let all: Vec<Wiring> = (0..64).map(wiring_from).collect();
     let mut sse = Vec::new();
     for (i, req) in [Req::KeyEnc, Req::KeyDec(FileKind::Authentic), Req::KeyDec(FileKind::CorruptLater), Req::PassEnc, Req::PassDec(FileKind::Authentic)].into_iter().enumerate() {
-        for chunk in all.chunks(8) { sse.push(Case { req, plain: Plain { len: 23, seed: ctx.seed + i as u64 }, chunks: vec![5, 6, 7], pos: SenderPos::Last, wirings: std::iter::once(wiring_from(0)).chain(chunk.iter().cloned()).collect(), sink: Sink::Healthy, sel: ctx.seed, prior_out: None, env_decoy: 0, in_name: 0, typed: false }); }
+        for chunk in all.chunks(8) { sse.push(Case { req, plain: Plain { len: 23, seed: ctx.seed + i as u64 }, chunks: vec![5, 6, 7], pos: SenderPos::Last, wirings: std::iter::once(wiring_from(0)).chain(chunk.iter().cloned()).collect(), sink: Sink::Healthy, sel: ctx.seed, prior_out: None, env_decoy: 0, in_name: 0, typed: false, out_kinds: vec![] }); }
     }
     // the empty plaintext and the look-alike keyring entry, deterministically
-    for req in [Req::KeyDec(FileKind::Authentic), Req::PassDec(FileKind::Authentic), Req::KeyEnc, Req::PassEnc] { sse.push(Case { req, plain: Plain { len: 0, seed: 1 }, chunks: vec![], pos: SenderPos::First, wirings: vec![wiring_from(0), wiring_from(2), wiring_from(3)], sink: Sink::Healthy, sel: 5, prior_out: Some(40), env_decoy: 0, in_name: 0, typed: false }); }
-    sse.push(Case { req: Req::KeyDec(FileKind::Authentic), plain: Plain { len: 40, seed: 2 }, chunks: vec![9], pos: SenderPos::AbsentCaseVariantPresent, wirings: vec![wiring_from(0), wiring_from(6)], sink: Sink::Healthy, sel: 6, prior_out: None, env_decoy: 2, in_name: 0, typed: false });
-    for (i, req) in [Req::KeyDec(FileKind::Authentic), Req::KeyEnc, Req::PassDec(FileKind::Authentic), Req::PassEnc].into_iter().enumerate() { for in_name in 1..8u8 { sse.push(Case { req, plain: Plain { len: 25, seed: 30 + i as u64 }, chunks: vec![9], pos: SenderPos::First, wirings: vec![wiring_from(0), wiring_from(32), wiring_from(1)], sink: Sink::Healthy, sel: 8, prior_out: None, env_decoy: 0, in_name, typed: false }); } }
-    for (i, req) in [Req::KeyDec(FileKind::Authentic), Req::KeyEnc, Req::PassDec(FileKind::Authentic), Req::PassEnc, Req::KeyDec(FileKind::CorruptLater)].into_iter().enumerate() { sse.push(Case { req, plain: Plain { len: 30, seed: 3 + i as u64 }, chunks: vec![8, 9], pos: SenderPos::Last, wirings: vec![wiring_from(0), wiring_from(2), wiring_from(8)], sink: Sink::Healthy, sel: 7, prior_out: Some(500), env_decoy: 1 + (i as u8 % 2), in_name: 0, typed: false }); }
+    for req in [Req::KeyDec(FileKind::Authentic), Req::PassDec(FileKind::Authentic), Req::KeyEnc, Req::PassEnc] { sse.push(Case { req, plain: Plain { len: 0, seed: 1 }, chunks: vec![], pos: SenderPos::First, wirings: vec![wiring_from(0), wiring_from(2), wiring_from(3)], sink: Sink::Healthy, sel: 5, prior_out: Some(40), env_decoy: 0, in_name: 0, typed: false, out_kinds: vec![] }); }
+    sse.push(Case { req: Req::KeyDec(FileKind::Authentic), plain: Plain { len: 40, seed: 2 }, chunks: vec![9], pos: SenderPos::AbsentCaseVariantPresent, wirings: vec![wiring_from(0), wiring_from(6)], sink: Sink::Healthy, sel: 6, prior_out: None, env_decoy: 2, in_name: 0, typed: false, out_kinds: vec![] });
+    for (i, req) in [Req::KeyDec(FileKind::Authentic), Req::KeyEnc, Req::PassDec(FileKind::Authentic), Req::PassEnc].into_iter().enumerate() { for in_name in 1..8u8 { sse.push(Case { req, plain: Plain { len: 25, seed: 30 + i as u64 }, chunks: vec![9], pos: SenderPos::First, wirings: vec![wiring_from(0), wiring_from(32), wiring_from(1)], sink: Sink::Healthy, sel: 8, prior_out: None, env_decoy: 0, in_name, typed: false, out_kinds: vec![] }); } }
+    for (i, req) in [Req::KeyDec(FileKind::Authentic), Req::KeyEnc, Req::PassDec(FileKind::Authentic), Req::PassEnc, Req::KeyDec(FileKind::CorruptLater)].into_iter().enumerate() { sse.push(Case { req, plain: Plain { len: 30, seed: 3 + i as u64 }, chunks: vec![8, 9], pos: SenderPos::Last, wirings: vec![wiring_from(0), wiring_from(2), wiring_from(8)], sink: Sink::Healthy, sel: 7, prior_out: Some(500), env_decoy: 1 + (i as u8 % 2), in_name: 0, typed: false, out_kinds: vec![] }); }
+    for (i, req) in [Req::KeyEnc, Req::KeyDec(FileKind::Authentic), Req::KeyDec(FileKind::CorruptLater), Req::PassEnc, Req::PassDec(FileKind::Authentic), Req::PassDec(FileKind::CorruptFirst)].into_iter().enumerate() { for len in [30usize, 70_000] { sse.push(Case { req, plain: Plain { len, seed: 50 + i as u64 }, chunks: vec![], pos: SenderPos::First, wirings: vec![wiring_from(0)], sink: Sink::Healthy, sel: 9 + 64 * 21 + 4096 * 42, prior_out: None, env_decoy: 0, in_name: 0, typed: false, out_kinds: vec![1, 2, 3] }); } }
     ctx.sse_vec("all_wirings", "5 requests x all 64 wiring combinations (8 per case, each compared with the canonical wiring)", sse, check);
     ctx.pbt("requests_x_wirings", ctx.n(320, 8_000), strat, check);
 }
